@@ -280,7 +280,9 @@ func (r *run) exec(c call) {
 	// refill, so one reading can be off by tens of KiB: a suspicious reading is confirmed by repeating
 	// the same call from the same state on fresh decoders and taking the minimum.
 	limit := uint64(64*n + 256<<10)
-	for rep := 0; rep < 3 && alloc > limit; rep++ {
+	// (a reading tens of MiB over the limit is no accounting noise, and repeating a huge allocation could
+	// exhaust the worker's address space before the violation is reported)
+	for rep := 0; rep < 3 && alloc > limit && alloc < limit+(32<<20); rep++ {
 		d := csproto.NewDecoder(r.viewA)
 		_, _ = d.Seek(int64(old), io.SeekStart)
 		d.SetMode(modeBefore)
